@@ -13,3 +13,23 @@ package internal
 //@   nopanic[C04.nopanic C12.nopanic]
 //@   modifies
 //@   ensures[C04.kv_nonnil] result != nil && (forall j Int :: 0 <= j && j < len(result) ==> result[j] != nil)
+
+//@ func internal.StatsStartServerRPC
+//@   nopanic[C20.nopanic C12.nopanic C13.nopanic]
+//@   requires ctx != nil
+//@   requires forall j Int :: 0 <= j && j < len(statsHandlers) ==> statsHandlers[j] != nil
+//@   modifies cnt:(google.golang.org/grpc/stats.Handler).TagRPC cnt:(google.golang.org/grpc/stats.Handler).HandleRPC cnt:HandleRPC:*google.golang.org/grpc/stats.Begin cnt:HandleRPC:*google.golang.org/grpc/stats.InHeader cnt:google.golang.org/grpc/metadata.FromIncomingContext
+//@   loop 0 invariant[C20.begin_once_per_handler] ncalls("HandleRPC:*google.golang.org/grpc/stats.Begin") == old(ncalls("HandleRPC:*google.golang.org/grpc/stats.Begin")) + rangeindex + 1
+//@   loop 0 invariant[C20.begin_once_per_handler] ncalls("(google.golang.org/grpc/stats.Handler).TagRPC") == old(ncalls("(google.golang.org/grpc/stats.Handler).TagRPC")) + rangeindex + 1
+//@   loop 0 invariant[C20.tagged_ctx] ctx != nil && desc(ctx, old(ctx)) && ctx_hasdl(ctx) == ctx_hasdl(old(ctx)) && ctx_newdl(ctx) == ctx_newdl(old(ctx))
+//@   ensures[C20.begin_once_per_handler] ncalls("HandleRPC:*google.golang.org/grpc/stats.Begin") == old(ncalls("HandleRPC:*google.golang.org/grpc/stats.Begin")) + len(statsHandlers)
+//@   ensures[C20.begin_once_per_handler] ncalls("(google.golang.org/grpc/stats.Handler).TagRPC") == old(ncalls("(google.golang.org/grpc/stats.Handler).TagRPC")) + len(statsHandlers)
+//@   ensures[C20.tagged_ctx C10.ctx_descends C08.ctx_deadline_kept] result != nil && desc(result, old(ctx)) && ctx_hasdl(result) == ctx_hasdl(old(ctx))
+
+//@ func internal.StatsEndRPC
+//@   nopanic[C20.nopanic C12.nopanic C13.nopanic]
+//@   requires forall j Int :: 0 <= j && j < len(statsHandlers) ==> statsHandlers[j] != nil
+//@   modifies cnt:(google.golang.org/grpc/stats.Handler).HandleRPC cnt:HandleRPC:*google.golang.org/grpc/stats.End cnt:time.Now cnt:errors.Is
+//@   loop 0 invariant[C20.end_once_per_handler] ncalls("HandleRPC:*google.golang.org/grpc/stats.End") == old(ncalls("HandleRPC:*google.golang.org/grpc/stats.End")) + rangeindex + 1
+//@   atcall[C20.end_error_iff_failure] (google.golang.org/grpc/stats.Handler).HandleRPC : (arg2.Error != nil) == (appErr != nil && !errIs(appErr, io.EOF)) && (arg2.Error != nil ==> arg2.Error == appErr)
+//@   ensures[C20.end_once_per_handler] ncalls("HandleRPC:*google.golang.org/grpc/stats.End") == old(ncalls("HandleRPC:*google.golang.org/grpc/stats.End")) + len(statsHandlers)
